@@ -65,7 +65,9 @@ class BufferMap:
                 buffer_size = max(producer.ofm_size_in_bytes(), consumer.ifm_size_in_bytes())
             else:
                 # Use a rolling buffer
-                buffer_shape = rolling_buffer_shape(cost[producer].stripe, cost[consumer].stripe_input)
+                buffer_shape = rolling_buffer_shape(
+                    cost[producer].stripe, cost[consumer].stripe_input, ifm_box_overread(consumer)
+                )
                 buffer_size = buffer_shape.elements() * producer.ofm.dtype.size_in_bytes()
 
             self.buffer_map[key] = (buffer_shape, buffer_size)
@@ -73,9 +75,23 @@ class BufferMap:
         return self.buffer_map[key]
 
 
-def rolling_buffer_shape(producer_stripe: Shape4D, consumer_stripe_input: Shape4D) -> Shape4D:
+def ifm_box_overread(consumer) -> int:
+    """Rows by which the IFM box of a stripe (Box.transform_with_strides_and_skirt: end * stride + skirt bottom)
+    extends beyond the last row the stripe reads ((end - 1) * stride - skirt top + dilated kernel height)"""
+    skirt = consumer.parent_op.attrs.get("skirt", None)
+    if skirt is None:
+        return 0
+    return max(consumer.kernel.stride.y + skirt[0] + skirt[2] - consumer.kernel.area_height(), 0)
+
+
+def rolling_buffer_shape(producer_stripe: Shape4D, consumer_stripe_input: Shape4D, consumer_overread: int = 0) -> Shape4D:
     """Calculates the storage shape of the rolling buffer between two SchedulerOperations in a Cascade"""
-    buffer_height = round_up(producer_stripe.height + consumer_stripe_input.height, consumer_stripe_input.height)
+    # The producer is run until the whole IFM box of the consumer stripe is present, i.e. up to the first producer
+    # stripe boundary at or after the box end: one row of over-read is covered by producer + consumer stripe
+    buffer_height = round_up(
+        producer_stripe.height + consumer_stripe_input.height + max(consumer_overread - 1, 0),
+        consumer_stripe_input.height,
+    )
     # Striding on the consumer op can result in IFM widths that are narrower than the OFM width of the producer.
     # Therefore, the maximum of the two needs to be used.
     buffer_width = max(producer_stripe.width, consumer_stripe_input.width)
